@@ -21,6 +21,9 @@ def suite_histories(suite, tier, seed):
     if suite == 'apitours':
         import tours
         return tours.api_tour_histories(seed, quick), dict(crash=0, remount=False)
+    if suite == 'datatours':
+        import tours
+        return tours.data_tour_histories(seed, quick), dict(crash=0, remount=True)
     if suite == 'fault':
         return fsgen.fault_histories(seed, quick), dict(crash=0, remount=False, tlc_timeout=3000)
     if suite == 'mount':
@@ -158,6 +161,11 @@ def run_suite(suite, tier, seed, force=False):
     if suite == 'apitours':
         import tours
         total, mism = tours.api_drift(cdir, hs)
+        res['drift_compared'] = total
+        res['drift'] = mism[:20]
+    if suite == 'datatours':
+        import tours
+        total, mism = tours.data_drift(cdir, hs)
         res['drift_compared'] = total
         res['drift'] = mism[:20]
     if suite == 'tours':
